@@ -169,6 +169,11 @@ func runC01(c *Ctx) {
 	ruleBrokerRemoval(c, r9)
 	c.R.Floor(r9, 18)
 
+	const r12 = "C01.R12 eligibility lists are compared with authenticated attributes; topics are matched by the reviewed match functions"
+	ruleSessionDetailsOrder(c, r12)
+	ruleMatchFunctions(c, r12)
+	c.R.Floor(r12, 8)
+
 	const r11 = "C01.R11 exclude_me is honoured whenever the publisher gives it"
 	pb := brk + "publish"
 	given := clause("exclude_me option given as a boolean", T(`^%msg\.Options\["exclude_me"\]\.\(bool\),ok#1$`))
